@@ -1,12 +1,12 @@
 """State-graph utilities: turn TLC's emitted transitions into replay scripts."""
 from collections import defaultdict, deque
+import json
 
 
 def build(trs):
     """trs: list of dict(from,to,act). Returns adjacency {from: [(actkey, act, to)]} deduped."""
     adj = defaultdict(list)
     seen = set()
-    import json
     for t in trs:
         k = (t["from"], json.dumps(t["act"], sort_keys=True), t["to"])
         if k in seen:
@@ -19,93 +19,118 @@ def build(trs):
 def covering_walks(init, adj, max_len=400):
     """Walks from `init` that together traverse every transition reachable from
     it at least once.  Greedy: follow untraversed edges; when none leaves the
-    current state, go (BFS) to the nearest state that has one; start a new
-    walk when none is reachable or the walk is long enough."""
-    untr = {}
-    reach = set([init])
+    current state, go to the nearest state that still has one (multi-source BFS
+    on the reverse graph, recomputed only when its answer is stale); start a
+    new walk (path from init along the BFS tree) when the walk is long enough
+    or nothing is reachable."""
+    ids = {init: 0}
+    order = [init]
     dq = deque([init])
     while dq:
         s = dq.popleft()
         for (k, a, t) in adj.get(s, []):
-            if t not in reach:
-                reach.add(t)
+            if t not in ids:
+                ids[t] = len(order)
+                order.append(t)
                 dq.append(t)
-    for s in reach:
-        untr[s] = list(adj.get(s, []))
-    remaining = sum(len(v) for v in untr.values())
-    # BFS tree from init for restarts
-    parent = {init: None}
-    depth = {init: 0}
-    dq = deque([init])
-    while dq:
-        s = dq.popleft()
+    n = len(order)
+    out = [[] for _ in range(n)]       # (act, to)
+    rev = [[] for _ in range(n)]       # (from, edge index in out[from])
+    for s in order:
+        i = ids[s]
         for (k, a, t) in adj.get(s, []):
-            if t not in parent:
-                parent[t] = (s, a)
-                depth[t] = depth[s] + 1
-                dq.append(t)
+            j = ids[t]
+            rev[j].append((i, len(out[i])))
+            out[i].append((a, j))
+    unt = [len(o) for o in out]        # untraversed edges per state; consumed from the end
+    remaining = sum(unt)
+    par = [None] * n
+    depth = [0] * n
+    seenb = [False] * n
+    seenb[0] = True
+    dq = deque([0])
+    while dq:
+        i = dq.popleft()
+        for (a, j) in out[i]:
+            if not seenb[j]:
+                seenb[j] = True
+                par[j] = (i, a)
+                depth[j] = depth[i] + 1
+                dq.append(j)
 
-    def path_from_init(s):
+    def path_from_init(j):
         p = []
-        while parent[s] is not None:
-            ps, a = parent[s]
+        while par[j] is not None:
+            i, a = par[j]
             p.append(a)
-            s = ps
+            j = i
         p.reverse()
         return p
 
-    def nearest(s, budget=60):
-        """bounded BFS from s to a state with an untraversed edge; returns list of acts and the state."""
-        par = {s: None}
-        dq = deque([s])
-        while dq and budget > 0:
-            budget -= 1
-            x = dq.popleft()
-            if untr[x]:
-                p = []
-                y = x
-                while par[y] is not None:
-                    py, a = par[y]
-                    p.append(a)
-                    y = py
-                p.reverse()
-                return p, x
-            for (k, a, t) in adj.get(x, []):
-                if t not in par:
-                    par[t] = (x, a)
-                    dq.append(t)
+    stamp = [0] * n
+    bpar = [None] * n
+    epoch = [0]
+
+    def nearest(src, budget):
+        """forward BFS with early exit: path (list of acts) to the nearest state that still has
+        untraversed edges, or None if none is found within `budget` visited states"""
+        epoch[0] += 1
+        ep = epoch[0]
+        stamp[src] = ep
+        bpar[src] = None
+        q = deque([src])
+        seen = 0
+        while q:
+            x = q.popleft()
+            seen += 1
+            if seen > budget:
+                return None, None
+            for (a, j) in out[x]:
+                if stamp[j] != ep:
+                    stamp[j] = ep
+                    bpar[j] = (x, a)
+                    if unt[j] > 0:
+                        p = []
+                        y = j
+                        while bpar[y] is not None:
+                            py, pa = bpar[y]
+                            p.append(pa)
+                            y = py
+                        p.reverse()
+                        return p, j
+                    q.append(j)
         return None, None
 
-    pending = sorted(reach, key=lambda x: -depth[x])   # pop() yields the shallowest first
     walks = []
-    cur = init
     walk = []
+    cur = 0
+    pending = sorted(range(n), key=lambda x: -depth[x])
     while remaining > 0:
-        if untr[cur] and len(walk) < max_len:
-            k, a, t = untr[cur].pop()
+        if unt[cur] > 0 and len(walk) < max_len:
+            unt[cur] -= 1
+            a, j = out[cur][unt[cur]]
             remaining -= 1
             walk.append(a)
-            cur = t
+            cur = j
             continue
-        p, x = (None, None)
+        moved = False
         if len(walk) < max_len:
-            p, x = nearest(cur)
-        if p is None:
-            if walk:
-                walks.append(walk)
-            # restart: go to some state with untraversed edges via the BFS tree
-            while pending and not untr[pending[-1]]:
-                pending.pop()
-            tgt = pending[-1] if pending else None
-            if tgt is None:
-                break
-            walk = path_from_init(tgt)
-            cur = tgt
-            if not untr[cur]:
-                break
+            p, x = nearest(cur, 4000)
+            if p is not None:
+                walk.extend(p)
+                cur = x
+                moved = True
+        if moved:
             continue
-        walk.extend(p)
-        cur = x
+        if walk:
+            walks.append(walk)
+        while pending and unt[pending[-1]] == 0:
+            pending.pop()
+        if not pending:
+            break
+        tgt = pending[-1]
+        walk = path_from_init(tgt)
+        cur = tgt
     if walk:
         walks.append(walk)
     return walks
